@@ -1,6 +1,7 @@
 package main
 
 import (
+	"context"
 	"encoding/json"
 	"fmt"
 	"sort"
@@ -507,12 +508,15 @@ func runC19(a Args) tr.Summary {
 	wg.Wait()
 	// Prosumer end to end
 	for _, kind := range []string{"tcp", "mock"} {
-		for r := 0; r < 3; r++ {
+		for r := 0; r < 4; r++ {
 			id++
 			nontrivial++
 			c := c19Case{Mode: "prosumer", Kind: kind, TimeoutMs: 30, Pubs: 1 + r%2, N: 40, Seed: a.Seed*733 + int64(id)}
 			if r == 2 {
 				c.Scenario, c.N = "resub", 150
+			}
+			if r == 3 {
+				c.Scenario, c.N = "welcome", 60
 			}
 			sub := tr.New(fmt.Sprintf("%s.real%d", a.Out, id))
 			c19Run(sub, id, c)
@@ -645,7 +649,26 @@ func c19Prosumer(t *tr.Writer, c c19Case) {
 	ps := push.NewProsumer(pc, "a")
 	ps.RetryInterval = 5 * time.Millisecond
 	var seen int64
-	for _, topic := range c19Topics {
+	first := c19Topics
+	if c.Scenario == "welcome" {
+		// only "t" to begin with; "u" comes and goes during the traffic, and the broker greets every new
+		// subscriber of "u" from its OnSubscribe callback: accepted before Subscribe has returned
+		first = c19Topics[:1]
+		e.broker.OnSubscribe = func(ctx context.Context, id string, topic string) {
+			if topic != "u" {
+				return
+			}
+			m := int(atomic.AddInt64(&e.m, 1))
+			t.Emit(tr.Rec{"ev": "pubB", "m": m, "topic": "u", "ids": []string{id}})
+			okids := []string{}
+			if e.broker.Unicast(ctx, m, "u", id, "broker") {
+				okids = append(okids, id)
+			}
+			t.Emit(tr.Rec{"ev": "pubE", "m": m, "okids": okids})
+		}
+	}
+	var seenU int64
+	for _, topic := range first {
 		topic := topic
 		ok, err := ps.Subscribe(topic, func(data interface{}, from string) {
 			m := c19Int(data)
@@ -689,6 +712,38 @@ func c19Prosumer(t *tr.Writer, c c19Case) {
 			}
 		}()
 	}
+	if c.Scenario == "welcome" {
+		resubDone.Add(1)
+		go func() {
+			defer resubDone.Done()
+			for i := 0; ; i++ {
+				select {
+				case <-stopResub:
+					return
+				default:
+				}
+				t.Emit(tr.Rec{"ev": "subB", "id": "a", "topic": "u"})
+				ok, err := ps.Subscribe("u", func(data interface{}, from string) {
+					t.Emit(tr.Rec{"ev": "pollE", "id": "a", "res": tr.Rec{"u": []int{c19Int(data)}}})
+					atomic.AddInt64(&seenU, 1)
+				})
+				if err != nil {
+					t.Emit(tr.Rec{"ev": "subErr", "err": err.Error()})
+					return
+				}
+				t.Emit(tr.Rec{"ev": "subE", "id": "a", "topic": "u", "ok": ok})
+				// the greeting was accepted inside Subscribe: its callback comes (or never does)
+				for w := 0; w < 400 && atomic.LoadInt64(&seenU) < int64(i+1); w++ {
+					time.Sleep(time.Millisecond)
+				}
+				t.Emit(tr.Rec{"ev": "settled", "id": "a", "topic": "u"})
+				if ok, err := ps.Unsubscribe("u"); err == nil {
+					t.Emit(tr.Rec{"ev": "unsub", "id": "a", "topic": "u", "ok": ok})
+				}
+				time.Sleep(time.Duration(300+i%5*200) * time.Microsecond)
+			}
+		}()
+	}
 	for p := 0; p < c.Pubs; p++ {
 		wg.Add(1)
 		go func(p int) {
@@ -696,8 +751,17 @@ func c19Prosumer(t *tr.Writer, c c19Case) {
 			prng := tr.NewRng(c.Seed*31 + int64(p))
 			from := fmt.Sprintf("p%d", p+1)
 			for i := 0; i < c.N; i++ {
+				// flow control: with many accepted messages not yet seen by the callbacks, the order of every
+				// concurrent pair among them is still open for the monitor (2^pairs states)
+				for w := 0; w < 2000 && atomic.LoadInt64(&accepted)-atomic.LoadInt64(&seen) > 6; w++ {
+					time.Sleep(200 * time.Microsecond)
+				}
 				before := atomic.LoadInt64(&e.m)
-				e.publish(from, c19Op{Op: "uni", Topic: c19Topics[prng.Intn(2)], ID: "a"})
+				topic := c19Topics[prng.Intn(2)]
+				if c.Scenario == "welcome" {
+					topic = "t"
+				}
+				e.publish(from, c19Op{Op: "uni", Topic: topic, ID: "a"})
 				_ = before
 				atomic.AddInt64(&accepted, 1)
 				time.Sleep(time.Duration(prng.Intn(900)) * time.Microsecond)
@@ -712,7 +776,7 @@ func c19Prosumer(t *tr.Writer, c c19Case) {
 		time.Sleep(5 * time.Millisecond)
 	}
 	time.Sleep(20 * time.Millisecond)
-	t.Emit(tr.Rec{"ev": "drain", "id": "a", "topics": c19Topics})
+	t.Emit(tr.Rec{"ev": "drain", "id": "a", "topics": first})
 	for _, topic := range c19Topics {
 		ps.Unsubscribe(topic)
 	}
